@@ -145,6 +145,8 @@ def run(tier, seed):
     res = Result("C19", tier, seed)
     from .. import gjkloop
     gjkloop.model_check(res, tier)        # design-level termination of the Jolt GJK loops (invariant Terminates, all tie-breaks)
+    from .. import libccdloop
+    libccdloop.model_check(res, tier)     # libccd GJK: the iteration cap is never the reason of an answer (NeverExhausted)
     recs, meta = gen(tier, seed)
     byid = {r["id"]: r for r in recs}
     rejects = trace.judge(recs, "narrow", "NarrowTrace", "NarrowTrace.cfg", "c19", res)
